@@ -543,6 +543,10 @@ def c17_retention(spec: dict, obs, ex: refmodel.Expect) -> tuple[list[Finding], 
             failed_any = any(s == 'failed' for s in ex.status.values())
             out.append(Finding(f'C17:real-runner-holds-results-after-normal-return:{"with" if failed_any else "no"}-failures',
                                f'{backend} runner still holds results of {names}'))
+        if obs.outcome == 'return' and obs.readable_after:
+            names = [h.nodes[i]['name'] for i in obs.readable_after]
+            out.append(Finding('C17:result-still-readable-through-task-objects-after-normal-return',
+                               f'{backend}: .result of {names} is still available in memory after run_tasks returned'))
         if any(s == 'failed' for s in ex.status.values()):
             nontrivial = True
         # spy-level: remove_results never names a task that a submitted-unfinished dependent still needs
